@@ -15,7 +15,7 @@ def regen(ctx):
          R + "set_impl.go:set.apply", R + "set_impl.go:set.replace", R + "set_impl.go:readableSet.OnUpdate",
          R + "event_impl.go:event.Trigger", R + "event_impl.go:event.OnTrigger"],
         extra_methods=["LockExecution", "UnlockExecution", "MarkUnsubscribed", "Invoke", "PushBack", "Remove",
-                       "Values", "Next", "updateValue", "apply", "replace"])
+                       "Values", "Next", "updateValue", "apply", "replace", "ToSlice"])
 
 
 SPEC = {
@@ -28,7 +28,7 @@ SPEC = {
     "theorems": ["C13_chain", "C13_last_is_final", "C13_set_fold", "C13_set_fold_step", "C13_callbacks_exclusive",
                  "C13_callbacks_closed", "C13_none_after_unsubscribe_returned", "C13_exactly_once_in_order",
                  "C13_every_change_delivered", "C13_update_id_test_never_fires", "C13_var_trace_ok", "C13_set_trace_ok",
-                 "C13_old_replace_witness",
+                 "C13_old_replace_witness", "C13_replace_needs_snapshot_witness", "C13_replace_self",
                  "C13_skeleton_variable_Compute", "C13_skeleton_variable_updateValue", "C13_skeleton_variable_OnUpdate",
                  "C13_skeleton_callback_LockExecution", "C13_skeleton_callback_UnlockExecution",
                  "C13_skeleton_callback_MarkUnsubscribed", "C13_skeleton_set_Apply", "C13_skeleton_set_Compute",
